@@ -5,66 +5,6 @@ import Infretis.Lemmas.RepexC05Sys
 namespace Infretis.Repex
 open Infretis.Perm Infretis.Perm.C05
 
-theorem permC_nil : permC ([] : Mat) = 1 := rfl
-
-theorem entry_minor_lt (N : Mat) (m k : Nat) (hk : k < m) (hm : m < N.length) :
-    entry (minor N m m) k k = entry N k k := by
-  unfold entry minor
-  have hk' : k < (N.eraseIdx m).length := by rw [List.length_eraseIdx, if_pos hm]; omega
-  rw [List.getD_eq_getElem?_getD (l := List.map _ _), List.getElem?_map,
-    List.getElem?_eq_getElem hk']
-  simp only [Option.map_some, Option.getD_some]
-  rw [getD_eraseIdx, if_pos hk, List.getElem_eraseIdx_of_lt hk' hk]
-  rw [List.getD_eq_getElem?_getD (l := N), List.getElem?_eq_getElem (by omega)]
-  rfl
-
-/-- **identity matching**: a non-negative square matrix with a positive diagonal has a positive
-    permanent -/
-theorem permC_pos_of_diag : ∀ (m : Nat) (N : Mat), N.length = m → NonNegM N →
-    (∀ k, k < m → 0 < entry N k k) → 0 < permC N := by
-  intro m
-  induction m with
-  | zero =>
-    intro N hlen _ _
-    have : N = [] := List.eq_nil_of_length_eq_zero hlen
-    subst this
-    rw [permC_nil]; exact zero_lt_one
-  | succ m ih =>
-    intro N hlen hnn hdiag
-    have hge := permC_ge_term N hnn m m (by omega) (by omega)
-    have hmin : 0 < permC (minor N m m) := by
-      apply ih
-      · rw [length_minor N m m (by omega)]; omega
-      · exact hnn.minor m m
-      · intro k hk
-        rw [entry_minor_lt N m k hk (by omega)]
-        exact hdiag k (by omega)
-    exact lt_of_lt_of_le (mul_pos (hdiag m (by omega)) hmin) hge
-
-/-- positive diagonal on the idle slots ⇒ the idle block has a positive permanent -/
-theorem idle_perm_pos_of_diag (n : Nat) (W : Mat) (locks : List Bool) (hlenW : W.length = n)
-    (hlenL : locks.length = n) (hghost : locks[n - 1]? = some true)
-    (rows : ∀ i, i < n - 1 → RowOk n i (W.getD i []))
-    (hdiag : ∀ i, locks[i]? = some false → entry W i i ≠ 0) : 0 < permC (idle W locks) := by
-  have hWL : W.length = locks.length := by rw [hlenW, hlenL]
-  have hnn := rows_nonneg n W locks hlenL hghost rows
-  apply permC_pos_of_diag (nIdle locks) _ (idle_length W locks hWL) hnn
-  intro k hk
-  obtain ⟨i, hi, rfl⟩ := exists_idle_of_lt_nIdle locks k hk
-  rw [idle_entry W locks i i hWL hi hi]
-  have h1 := getElem?_lt_of_some _ _ _ hi
-  have hlt : i < n - 1 := by
-    by_cases heq : i = n - 1
-    · rw [heq, hghost] at hi; exact absurd hi (by simp)
-    · omega
-  have h0 : 0 ≤ entry W i i := by
-    unfold entry
-    rw [List.getD_eq_getElem?_getD (l := W.getD i [])]
-    cases hx : (W.getD i [])[i]? with
-    | none => simp
-    | some x => exact (rows i hlt).nonneg x (List.mem_of_getElem? hx)
-  exact lt_of_le_of_ne h0 (Ne.symm (hdiag i hi))
-
 /-- The state `scheduler()` starts from (C03's `Init`) with initial paths from C02's weight family,
     each valid in its own ensemble (what `load_paths` asserts), their weights recorded in
     `traj_data`, and all recorded numbers below `traj_num`. -/
@@ -79,8 +19,9 @@ structure Init5 (y : Sys) : Prop where
   rkeys : ∀ x ∈ y.s.rows, x.1 < y.s.trajNum
 
 theorem Init5.inv5 {y : Sys} (h : Init5 y) : Inv5 y := by
-  have hinv := h.init.inv
-  refine ⟨hinv, ⟨h.rows, ?_, h.wts, h.wkeys, h.fkeys, h.rkeys⟩, ?_⟩
+  have hinv := h.init.invR
+  refine ⟨hinv, ⟨h.rows, ?_, h.wts, h.wkeys, h.fkeys, h.rkeys⟩,
+    DiagR.of_fresh (Or.inr h.init.locked0), ?_⟩
   · apply idle_perm_pos_of_diag y.s.n _ _ hinv.core.lenW hinv.core.lenL hinv.core.ghost h.rows
     intro i hi
     exact h.diag i (hinv.core.unlocked_lt i hi)
